@@ -57,6 +57,8 @@ func runC04(c *Ctx) {
 	// "skips only control records or, under read_committed, aborted data":
 	// the per-record keep / abort-marker rules are shared with C05 / C06.
 	fetchKeepRules(c, m)
+	abortRules(c, m)
+	c04stripMarks(c, m)
 }
 
 // ---------------------------------------------------------------- helpers
@@ -1519,4 +1521,49 @@ func (x *c04x) fetchFinish() {
 func identOf(e ast.Expr) *ast.Ident {
 	id, _ := unparen(e).(*ast.Ident)
 	return id
+}
+
+// c04stripMarks: in takeBuffered the pause filter drops, from the returned
+// fetch, exactly the partitions whose cursors were NOT advanced.  The strip map
+// encodes "whole topic" as a present key with an empty set, so a partition set
+// may be stored under a topic only when it is non-empty (an empty set stored
+// for a topic with no paused partition on this broker would drop every
+// partition of the topic although their cursors were advanced: silent skip).
+func c04stripMarks(c *Ctx, m *Module) {
+	rule := "strip-marks-match-unadvanced-cursors"
+	f := c.NeedFunc(m, "kgo.source.takeBuffered")
+	if f == nil {
+		return
+	}
+	info := f.Info()
+	n := 0
+	ast.Inspect(f.Decl.Body, func(x ast.Node) bool {
+		as, ok := x.(*ast.AssignStmt)
+		if !ok || len(as.Lhs) != 1 || len(as.Rhs) != 1 {
+			return true
+		}
+		ix, ok := as.Lhs[0].(*ast.IndexExpr)
+		if !ok {
+			return true
+		}
+		tv := info.Types[ix.X]
+		if tv.Type == nil || nosp(tv.Type.String()) != "map[string]map[int32]struct{}" {
+			return true
+		}
+		n++
+		g := f.GraphFor(as)
+		l, _ := g.LocOf(as)
+		facts := g.FactsAt(l)
+		val := nosp(exprStr(as.Rhs[0]))
+		cons := f.Key + ": " + nosp(exprStr(as.Lhs[0])) + " = " + val
+		if val == "nil" {
+			whole := factMatches(facts, func(ft Fact) bool { return ft.Val && strings.HasSuffix(nosp(exprStr(ft.Cond)), ".all") })
+			c.Check(whole, rule, cons, as.Pos(), m, "whole-topic mark only when the whole topic is paused", "the whole-topic strip mark is stored although the topic is not entirely paused")
+			return true
+		}
+		nonEmpty := factMatches(facts, func(ft Fact) bool { return ft.Val && nosp(exprStr(ft.Cond)) == "len("+val+")>0" })
+		c.Check(nonEmpty, rule, cons, as.Pos(), m, "a partition set is recorded only when non-empty", "a possibly empty partition set is stored as the topic's strip mark; the filter reads an empty set as `strip the whole topic`, so the unpaused partitions - whose cursors were already advanced - are dropped from the returned fetch and never delivered")
+		return true
+	})
+	c.Floor(rule+"/stores", n, 2)
 }
